@@ -228,7 +228,11 @@ def run(repo: Repo, rep: Report, tier: str) -> None:
         fq = f"presentation.{m.fname}"
         for p in wire_props:
             for s in sets:
-                d = m.decide(table, p, s)
+                try:
+                    d = m.decide(table, p, s)
+                except KeyError as exc:
+                    rep.fail("role-table", fq, f"proposal={p} setting={s}: table lookup {exc}", "the role table lookup has no entry for this combination (KeyError at run time)", mod=pres, node=m.fn)
+                    continue
                 inst = f"proposal={p}, supported roles={s}"
                 usable = d["result"] != 0 or bool(d["as_scu"]) or bool(d["as_scp"])
                 rep.check(usable, "role-usable", fq, f"[{inst}] -> result {d['result']}, as_scu={d['as_scu']}, as_scp={d['as_scp']}", "the context is accepted (result 0x00) although the acceptor may act neither as SCU nor as SCP on it", mod=pres, node=getattr(m, "role_if", m.fn))
@@ -308,7 +312,7 @@ def run(repo: Repo, rep: Report, tier: str) -> None:
             else:
                 ok = k in want and conds[0] == want[k][0]
             rep.check(ok, "result-codes", "presentation.negotiate_as_acceptor", f"context.result = {k} under {conds[0] if conds else None}", f"result code 0x{k if k is not None else 0:02X} is assigned on the wrong branch", mod=pres, node=s)
-    rep.floor("result code assignments", n_codes, 5)
+    rep.floor("result code assignments", n_codes, 3)
 
     # ---- (7) mode selection ----------------------------------------------------------------------------
     acse = repo.mod("acse")
